@@ -13,42 +13,42 @@ CHECKS = {
             'Every program of the flat space F(3) (95 415 programs, 15 atoms x every relation type x every earlier entry) under two duration '
             'configurations and of the nested space N1 (blocks, repetitions, relations to blocks) is executed on the real library; the relation '
             'of every entry is compared with the program (explicit) or with the admissible implicit predecessors of the reference model, and all '
-            'reported start/end times with an independent solution of the relation equations, as built and after apply_modifiers().',
+            'reported start/end times with an independent solution of the relation equations, as built and after apply_modifiers(). Further families: deviation-bounded programs of up to 6 entries with at most 2 explicit relations, blocks with a relation of their own (incl. JOINED_END: known finding F23, attributed by a counterfactual), extra block shapes under two duration orders; every top-level relation is followed through flatten().',
             'bounded program length / alphabet / duration configurations; reference model mc/ref/schedule.py trusted'),
     'C02': (MC, '4/C02', 'explicit-state exploration of all build programs up to a bound vs listing model',
             'Same program spaces as C01; for every program the listing must be a duplicate-free permutation of the added leaves by identity, blocks '
             'expanded in place with the content of their body, causal with respect to every reported relation, stable under re-listing, and '
-            'add/get_last_entry must return the added objects.',
+            'add/get_last_entry must return the added objects. Every program is also built with intermediate listings, with shared relation objects and with blocks handed over as structures (whose sources then grow); after unrolling the listing is counted against the program.',
             'bounded program length / alphabet; listing order itself is not prescribed beyond causality and in-place expansion'),
     'C04': (MC, '4/C04', 'explicit-state exploration of all build programs up to a bound vs span oracle',
             'Same program spaces as C01 (they contain both shapes named in the statement); duration of the circuit and of every nested block must '
-            'equal max end - min start over the contained operations, 0 when empty, and the follower clause is evaluated for every relation to a block.',
+            'equal max end - min start over the contained operations, 0 when empty, and the follower clause is evaluated for every relation to a block (as built, unrolled, after flatten()). Two listed findings (F23: block placed JOINED_END; F24: nested block whose content starts before it) are attributed by a counterfactual resp. an alternative specification evaluated on the failing case.',
             'bounded program length / alphabet / duration configurations'),
     'C03': (MC, '4/C03', 'deviation-bounded exhaustive exploration of mutation/observation histories, differential oracle',
             'Every mutation sequence up to length 3 (4 in the thorough tier) over 15 mutation kinds is executed with every placement of one '
             'intermediate observation of every kind (and length <= 2 with two), and its full observation vector is compared with the same mutations replayed '
-            'without observations on a cleared world. Failures are attributed to the listed finding F2 only by a counterfactual experiment.',
+            'without observations on a cleared world (22 mutation kinds incl. growing nested blocks, registry counts, leaving an override by an exception; histories also start from a non-initial state; the duration is asked before anything is listed; the global durations must be restored after an override).',
             'bounded history length and number of observations; hidden state compared through public observers only'),
     'C05': (MC, '4/C05', 'explicit-state exploration of build programs over all operation classes, three copy routes, one-step independence',
             'Per-class copy obligations for every concrete operation class found by introspection (all init fields non-default, every relation type); all flat programs '
             'of length <= 2 over all classes and <= 3 over footprint representatives plus nested programs, each copied by nesting, circuit_structure.copy() and '
             'top-level repetition and compared row by row with the original; then five mutations applied cumulatively to the original resp. the copy with the '
-            'other side re-read after each.',
+            'other side re-read after each; further routes: explicit copies of block entries, copies of unrolled and of unrolled-and-flattened circuits re-read under three configurations, blocks handed to add as structures.',
             'bounded program length / alphabet; differential oracle copy vs original'),
     'C06': (MC, '4/C06', 'explicit-state exploration of nested/repeated build programs vs reference model of unrolling',
             'All programs of N2(2) (166 056: blocks with any body of 1-2 atoms, counts 1..3), N1(3) (explicit relations to blocks), a two-level space (nested counts multiply) '
             'and top-level / registry-provided counts are unrolled on the real library; multiplicities, reset of counts, untouched outer operations, the full schedule of the '
-            'copies (against the model: each copy follows the latest-ending relation leaf), the n*T clause and idempotence are checked on every one.',
+            'copies (against the model: each copy follows the latest-ending relation leaf), the n*T clause and idempotence are checked on every one; unrolled circuits are re-timed under other configurations; empty blocks, shared registry counts and counts set after the circuit was built are included.',
             'bounded program spaces; model schedule used only where model and implementation agree as built'),
     'C07': (MC, '4/C07', 'explicit-state exploration of build programs with measurements vs positional indexer',
             'All programs of length <= 2 whose entries are measurements (3 qubits x tags), gates or blocks with any body of 1-2 atoms, counts 1..3, measurements created against the '
             'block\'s own or the outermost registry (plus a second nesting level), modifiers applied: circuit-level and per-qubit indices must be the positions in the listing, '
-            'filters by qubit and by (qubit, tag) exact, tags a partition, the exported measurement record in index order, and indices monotone in start time.',
+            'filters by qubit and by (qubit, tag) - asked with the tags as given - exact in count and a partition, the exported measurement record in index order, and indices monotone in start time (incl. repeated blocks with a chain of three measurements next to a long operation).',
             'bounded program spaces; monotonicity only for relation-free programs without channel overlap'),
     'C08': (MC, '4/C08', 'explicit-state exploration of build programs vs independent Stim translator',
             'All flat programs of length <= 2 over all 26 operation classes, all N2(2) programs (blocks x counts), a two-level space, an annotation box (every target shape of detector / '
             'observable / shift, alone and inside a repeated block) and library constructors are exported; the exported program (REPEAT unrolled, fused targets split) must equal the '
-            'reference translation of the listing instruction by instruction, and before/after unrolling agree as required.',
+            'reference translation of the listing instruction by instruction, the multiset of instructions must be what the program's own leaves translate to (one block per operation class, registry counts set after build), and before/after unrolling agree as required.',
             'bounded program spaces; reference translator mc/ref/stim_tr.py; Stim trusted as parser/printer'),
     'C11': (MC, '4/C11', 'explicit-state exploration of nested build programs + exhaustive box of library constructor inputs',
             'All N2(2), N1(3) and two-level programs are flattened (as built / after unrolling): multiset of (kind, qubits, duration, tag) unchanged, no sub-circuit left, idempotent. '
@@ -58,17 +58,17 @@ CHECKS = {
     'C15': (MC, '4/C15', 'explicit-state exploration of build programs vs independent OpenQL translator on a recording platform',
             'All flat programs of length <= 2 over all 26 operation classes, all N2(2) programs and a two-level space are exported through to_openql with PlatformManager.construct_program / '
             'construct_kernel replaced (inside the checker) by recorders; the linearised call tree must equal the reference translation of the listing (gate table, cz + barrier + two phase updates, '
-            'wait duration, block position and multiplicity) and exporting twice must give the same names. Thorough tier: the recorder is bound to real OpenQL by compiling a fixed family and parsing the cQASM.',
+            'wait duration, block position and multiplicity), the multiset of steps must be what the program's own leaves translate to, kernel names must be unique, exporting twice must give the same names and the names must not depend on what the process exported before (fresh interpreters, both orders). Thorough tier: the recorder is bound to real OpenQL by compiling a fixed family and parsing the cQASM.',
             'bounded program spaces; recording stand-in for the OpenQL platform (validated against real OpenQL in the thorough tier)'),
     'C12': (EX, '4/C12', 'exhaustive enumeration of experiment descriptions vs reference cycle layout',
-            'All lists of distinct round counts from {0..4} (thorough {0..6}) in any order x heralded on/off x repetitions 1..3 x five qubit sets: kernel spans, contiguity, every index '
+            'All lists of distinct round counts from {0..4} (thorough {0..6}) in any order x heralded on/off x calibration points on/off x repetitions 1..3 x five qubit sets (the caller's lists are changed after construction): kernel spans, contiguity, every index '
             'category of every involved (and an uninvolved) qubit compared with the reference layout, plus disjointness, containment, coverage with the documented missing slot, translation by the '
             'cycle length and the repetition estimate.',
             'finite input box; reference layout mc/ref/kernel.py'),
     'C18': (MC, '4/C18', 'explicit-state exploration of build programs x drawing settings, spies on the visual description and pivots',
             'Every class alone and all flat programs of length <= 2 over 15 atoms are drawn under every permutation of every prefix of the occupied channels x three label maps x compact / non-compact x '
             'two global configurations; all flat programs of length <= 2 over all classes and nested programs (as built and unrolled) under one or two settings. Rows, x = reported start under the durations in '
-            'force for the drawing, figure width, labels, rejection of unknown channels and the full observation vector before/after each drawing are checked.',
+            'force for the drawing, figure width, labels, anchors of two-point components, rejection of unknown channels and the full observation vector before/after each (also each rejected) drawing are checked.',
             'bounded program spaces; positions observed through harness-side spies; cosmetic offsets not judged; drawing-as-deviation histories are explored by C03'),
     'C19': (EX, '4/C19', 'exhaustive enumeration of finite relations',
             'All ordered triples of channel identifiers over 3 qubits x 4 channels (==, !=, symmetry, membership), all ordered pairs of 21 qubit names and all ordered pairs of edges over them '
@@ -77,7 +77,7 @@ CHECKS = {
             'finite domains as listed; self-loop edges excluded'),
     'C16': (EX, '4/C16', 'exhaustive enumeration of edge subsets vs frequency-collision predicate',
             'All 2 324 subsets of up to three (thorough: 12 950 of up to four) of the 24 Surface-17 edges: get_mutually_allowed vs the reference predicate (also under reversed gate/qubit order); for every '
-            'subset of pairwise disjoint gates all 17 qubits vs the parking predicate; the sequence generator on fixed edge lists x subgroup sizes (each gate once, only accepted steps, no duplicates).',
+            'subset of pairwise disjoint gates all 17 qubits vs the parking predicate; the sequence generator on fixed edge lists x subgroup sizes (each gate once, only accepted steps, no duplicates, parking reported per step directly and through the generic layer), two generator runs per fresh interpreter.',
             'finite: all subsets up to the stated size; independent device model mc/ref/freq.py'),
     'C17': (EX, '4/C17', 'exhaustive enumeration of layout tables, involved-qubit subsets and exclusions',
             'Surface-17 tables against an independent device model (qubits, edges, neighbours, parity groups, frequency groups, feedlines); every layer of the three shipped repetition layouts; '
@@ -87,7 +87,7 @@ CHECKS = {
     'C09': (EX, '4/C09', 'exhaustive enumeration of constructor inputs; exported program executed on a tableau simulator vs classical protocol model',
             'Distance 2..4 (thorough 5) x all 2^(2d-1) computational states of data and ancilla qubits x cycles 0..6 x refocusing on/off for chain descriptions, plus every contiguous '
             'sub-chain of the three shipped layouts through from_connectivity; each circuit as built, unrolled and flattened: every measurement deterministic (peek_z), the record equal to the '
-            'protocol model per qubit in time order, (d-1)(cycles+1) detectors, one observable, detector_error_model() succeeds.',
+            'protocol model per qubit in time order, (d-1)(cycles+1) detectors each pairing measurements of one ancilla, one observable, detector_error_model() succeeds; layout sub-chains are taken in both directions.',
             'finite input box; Stim trusted as executor; protocol model mc/ref/protocol.py'),
     'C10': (EX, '4/C10', 'exhaustive enumeration of constructor inputs x duration configurations, overlap sweep',
             'Chain and simplified repetition-code constructors, layout sub-chains and calibration circuits x every assignment of {1,2,3} (thorough {0.5,1,2,3.5}) to (readout, microwave, flux, reset) - every '
@@ -96,7 +96,7 @@ CHECKS = {
     'C13': (EX, '4/C13', 'exhaustive enumeration of rounds lists x distances: experiment circuit vs index kernel vs reference layout',
             'All lists of distinct round counts from {0..4} (distance 2) and {0..3} (distance 3) in any order x three state patterns: the multi-round circuit is constructed and, per ancilla, the indices tagged '
             'heralded / parity / final are compared with the kernel\'s heralded / stabilizer+projected / calibration indices (experiment_repetitions = 1), with the cycle length, and both with the reference layout; '
-            'the only accepted difference is the 0-round slot.',
+            'the only accepted difference is the 0-round slot. A second family takes the description from a layout sub-chain (default and device-wide channel map), without refocusing, and with a 28-round block.',
             'finite input box; reference layout mc/ref/kernel.py'),
     'C14': (EX, '4/C14', 'exhaustive enumeration of exported circuits x noise-settings grid vs reference noise formula',
             'Exported Stim circuits of all relation-free programs of length <= 2 over the supported kinds (with repeated blocks) and repetition-code circuits x 54 settings (three T1/T2 pairs incl. the clamp case, '
